@@ -139,11 +139,11 @@ func checkC15(t *testing.T, c *c15Case, rec *Recorder) []Diff {
 				var want []float64
 				// one sink per e2e probe (two sequential probes may be handed the same ephemeral port by the
 				// kernel and then share a flow key, so flows cannot be counted)
-				for _, probes := range sinkProbes(o.Wire) {
+				for h, probes := range sinkProbes(o.Wire) {
 					if len(probes) != 1 || int(probes[0].TTL) != p.MaxTTL {
 						continue
 					}
-					fs := o.World.flows[probes[0].FlowKey()]
+					fs := o.World.FlowAt(probes[0], h)
 					if fs == nil {
 						continue
 					}
